@@ -104,7 +104,8 @@ func signature(h []irhist.Call, with, without irhist.Result) string {
 
 type stats struct {
 	transitions, withObs, nontrivial, divergences, obsPanics int
-	mdRelabelled                                             int
+	mdRelabelled, dupSkipped                                 int
+	exact                                                    bool
 	mdExample                                                string
 	known                                                    map[string]int
 }
@@ -122,10 +123,10 @@ func judge(rep *mbt.Report, tr irhist.Transition, st *stats, source string) {
 		st.nontrivial++
 	}
 	rep.Count(key, len(pre) > 0)
-	with := irhist.Replay(h, true)
-	without := irhist.Replay(h, false)
+	with := irhist.ReplayOpt(h, true, st.exact)
+	without := irhist.ReplayOpt(h, false, st.exact)
 	st.obsPanics += with.ObsPanics
-	c := map[string]interface{}{"hist": h, "want": tr.Want, "source": source}
+	c := map[string]interface{}{"hist": h, "want": tr.Want, "source": source, "exact": st.exact}
 	if irhist.SameOutcome(with, without) && !irhist.SameOutcomeLiteral(with, without) {
 		// same module, metadata definitions labelled differently (see notes/C14.md)
 		st.mdRelabelled++
@@ -239,6 +240,7 @@ func lastOp(h []irhist.Call) string {
 type emission struct {
 	label  string
 	consts map[string]string
+	exact  bool // replay with the abstract names as concrete names (name collisions)
 	t      *mbt.TLCResult
 }
 
@@ -271,8 +273,15 @@ func emitAll(rep *mbt.Report, ems []*emission, st *stats, timeout time.Duration)
 		}
 		before := st.transitions
 		for _, tr := range trs {
+			if tr.Dup {
+				// the final state defines a name twice: a transient state, not a module LLVM accepts
+				st.dupSkipped++
+				continue
+			}
+			st.exact = e.exact
 			judge(rep, tr, st, label)
 		}
+		st.exact = false
 		rep.TracesValidated += st.transitions - before
 		rep.Extra["transitions_"+label] = len(trs)
 		rep.Extra["tlc_wall_s_"+label] = t.Wall.Seconds()
@@ -364,6 +373,26 @@ func Run(tier, replay string) {
 	}
 	ems = append(ems, &emission{label: "metadata", consts: metadata})
 	ems = append(ems, &emission{label: "types", consts: typesCfg})
+	// blockaddress of a block from a global initialiser and from another function (two functions)
+	blockaddr := map[string]string{"MaxSrc": "0", "MaxCalls": "5", "Groups": `{"globals"}`, "MaxFuncs": "2", "MaxBlocks": "2", "MaxInsts": "1",
+		"NewNames": `{""}`, "SetNames": `{"y"}`, "InstRes": `{"value"}`, "TermKinds": `{"ret"}`, "InstOps": `{"use"}`,
+		"RefTargets": `{"block"}`, "RefGlobals": "TRUE", "Observers": `{"PrintModule", "PrintFunc"}`}
+	// operand-level edits between operand queries: call with two arguments, phi with two incoming values
+	operands := map[string]string{"MaxSrc": "0", "MaxCalls": "6", "MaxPerGroup": "0", "MaxParams": "0", "MaxBlocks": "1",
+		"NewNames": `{""}`, "SetNames": `{"y"}`, "InstRes": `{"value"}`, "TermKinds": `{"ret"}`, "InstOps": `{"call2", "phi2"}`,
+		"Observers": `{"PrintModule", "QueryOperands"}`, "TrackQueries": "TRUE", "StickyQueries": "TRUE"}
+	// SetName to any name of a small pool including names in use (replayed with the names as they are):
+	// histories pass through states in which two locals share a name
+	names := map[string]string{"MaxSrc": "0", "MaxCalls": "5", "MaxPerGroup": "0", "MaxBlocks": "1",
+		"SetNames": `{"", "x", "y"}`, "InstRes": `{"value"}`, "Observers": `{"PrintModule", "PrintFunc"}`}
+	if tier == "thorough" {
+		blockaddr["MaxCalls"] = "6"
+		operands["MaxCalls"] = "7"
+		names["MaxCalls"] = "6"
+	}
+	ems = append(ems, &emission{label: "blockaddr", consts: blockaddr})
+	ems = append(ems, &emission{label: "operands", consts: operands})
+	ems = append(ems, &emission{label: "names", consts: names, exact: true})
 	emitAll(rep, ems, st, 25*time.Minute)
 	// vacuity guards: plausible variants of the code that the model must reject
 	guard := func(label string, consts map[string]string, extra map[string]string, cfg string, want string) {
@@ -397,6 +426,9 @@ func Run(tier, replay string) {
 	// moment of the first Type() call no longer matters)
 	guard("lazy_type", typesCfg, map[string]string{"EagerType": "FALSE", "GlobalRefresh": `"never"`, "AllocaRefresh": `"never"`}, "IRState.cfg", "ObserverTransparent")
 	guard("header_before_assign", locals, map[string]string{"HeaderBeforeAssign": "TRUE"}, "IRState.cfg", "PrintTwiceSame,PrintFuncTwiceSame,PrintFuncIsPart,ObserverTransparent")
+	guard("number_function_when_printed", blockaddr, map[string]string{"AssignAllFirst": "FALSE"}, "IRState.cfg", "PrintTwiceSame,ObserverTransparent")
+	guard("operands_memo", operands, map[string]string{"OperandsMemo": "TRUE", "MaxCalls": "6"}, "IRState.cfg", "ObserverTransparent")
+	guard("rename_taken", names, map[string]string{"RenameTaken": "TRUE"}, "IRState.cfg", "ObserverTransparent,PrintTwiceSame,PrintFuncTwiceSame")
 	guard("md_one_pass", metadata, map[string]string{"MdVariant": `"one-pass"`}, "IRState.cfg", "ObserverTransparent")
 	guard("md_literal_ids", metadata, nil, "IRStateMdLiteral.cfg", "ObserverTransparentLiteral")
 	if tier == "thorough" {
@@ -425,6 +457,7 @@ func Run(tier, replay string) {
 	rep.Extra["observer_calls_that_panicked_on_incomplete_ir"] = st.obsPanics
 	rep.Extra["unobserved_history_differs_from_required_numbering"] = st.divergences
 	rep.Extra["same_module_metadata_labelled_differently"] = st.mdRelabelled
+	rep.Extra["transitions_not_judged_duplicate_name_in_final_state"] = st.dupSkipped
 	if st.mdRelabelled > 0 {
 		rep.Note("%d histories print the same module with and without observers but label the metadata definitions differently (an ID stored by a print is kept by the next one), e.g. %s", st.mdRelabelled, st.mdExample)
 	}
@@ -432,7 +465,7 @@ func Run(tier, replay string) {
 		rep.Note("%d histories print, without any observer, something else than the numbering IRState requires: judged by C08, not a C14 verdict", st.divergences)
 	}
 	rep.Exhaustive = true
-	rep.Explanation = "every transition of the seven IRState configurations of this tier was emitted and replayed (no sampling)"
+	rep.Explanation = "every transition of the ten IRState configurations of this tier was emitted and replayed (no sampling)"
 	rep.Assumptions = []string{
 		"the replay (harness/props/irhist) maps each IRState action to the public API call it stands for; instructions are add/call/store/fence, terminators ret/br/invoke/callbr/catchswitch with placeholder operands",
 		"Type(), Ident(), Operands(), Succs() are called on every object of the module at the observer's position",
@@ -445,8 +478,9 @@ func runReplay(rep *mbt.Report, path string, st *stats) {
 	type rf struct {
 		Failures []struct {
 			Case struct {
-				Hist []irhist.Call `json:"hist"`
-				Want irhist.Out    `json:"want"`
+				Hist  []irhist.Call `json:"hist"`
+				Want  irhist.Out    `json:"want"`
+				Exact bool          `json:"exact"`
 			} `json:"case"`
 		} `json:"failures"`
 	}
@@ -458,6 +492,7 @@ func runReplay(rep *mbt.Report, path string, st *stats) {
 		if len(f.Case.Hist) == 0 {
 			continue
 		}
+		st.exact = f.Case.Exact
 		judge(rep, irhist.Transition{Hist: f.Case.Hist, Want: f.Case.Want}, st, "replay")
 		rep.TracesValidated++
 	}
